@@ -51,6 +51,23 @@ func Init() {
 // BudgetExceeded is the sentinel panic raised by the step hook.
 type BudgetExceeded struct{}
 
+// maxProbeString bounds the strings a real run may show to a probe. The
+// reference run refuses to build anything larger (ref.TooBig), so a real run
+// only gets there when the reference stopped early (outcome not fixed by the
+// documents, model budget) or when the two diverged; either way the run is
+// ended like an exhausted budget before doubling strings exhaust the
+// worker's address space.
+const maxProbeString = 1 << 20
+
+func (rs *RunState) guardSize(vs []ref.Val) {
+	for _, v := range vs {
+		if s, ok := v.V.(string); ok && len(s) > maxProbeString {
+			rs.TooBig = true
+			panic(BudgetExceeded{})
+		}
+	}
+}
+
 // Event recorded by a real run.
 type Event struct {
 	Kind   string
@@ -68,6 +85,7 @@ type RunState struct {
 	Stmts  int64
 	Iters  int64
 	Budget int64
+	TooBig bool // a probe saw a string above maxProbeString; the run was ended
 
 	Polls       int
 	FireAtPoll  int   // >0: ExitSignal answers true from the k-th poll on
@@ -214,6 +232,7 @@ func v1P(ctx *plrt.Task, e *ast.CallExpr) *errchain.PlError {
 		return err
 	}
 	if rs := stateV1(ctx); rs != nil {
+		rs.guardSize(vs)
 		rs.Events = append(rs.Events, Event{Kind: "p", Script: ctx.Name(), Vals: vs, Step: rs.Steps, Poll: rs.Polls})
 	}
 	return nil
@@ -232,6 +251,7 @@ func v1T(ctx *plrt.Task, e *ast.CallExpr) *errchain.PlError {
 		return err
 	}
 	if rs := stateV1(ctx); rs != nil {
+		rs.guardSize([]ref.Val{{V: v}})
 		rs.Events = append(rs.Events, Event{Kind: "t", Script: ctx.Name(), ID: id,
 			Vals: []ref.Val{{V: ref.Copy(v), T: TypeOfD(d)}}, Step: rs.Steps, Poll: rs.Polls})
 	}
@@ -361,6 +381,7 @@ func v2P(ctx *runtimev2.Task, e *ast.CallExpr) *errchain.PlError {
 		vs = append(vs, ref.Val{V: ref.Copy(v.V), T: TypeOfD(v.T)})
 	}
 	if rs := stateV2(ctx); rs != nil {
+		rs.guardSize(vs)
 		rs.Events = append(rs.Events, Event{Kind: "p", Vals: vs, Step: rs.Steps, Poll: rs.Polls})
 	}
 	return nil
@@ -379,6 +400,7 @@ func v2T(ctx *runtimev2.Task, e *ast.CallExpr) *errchain.PlError {
 		return err
 	}
 	if rs := stateV2(ctx); rs != nil {
+		rs.guardSize([]ref.Val{{V: v.V}})
 		rs.Events = append(rs.Events, Event{Kind: "t", ID: id.V,
 			Vals: []ref.Val{{V: ref.Copy(v.V), T: TypeOfD(v.T)}}, Step: rs.Steps, Poll: rs.Polls})
 	}
